@@ -34,6 +34,13 @@ type Exec struct {
 	curFrame *Frame
 	lastObs  []ObsTerm
 	snapCache map[string]string
+	boxInfo  map[string]boxRec
+	ctxPkg   *types.Package
+}
+
+type boxRec struct {
+	ty  types.Type
+	ref string
 }
 
 type writeRec struct {
@@ -164,9 +171,9 @@ func (e *Exec) rangeFact(x string, t types.Type, st *State) string {
 	}
 	switch t.Underlying().(type) {
 	case *types.Pointer, *types.Map, *types.Chan, *types.Signature:
-		return "(and (>= " + x + " 0) (<= " + x + " " + e.top(st) + "))"
+		return "(<= " + x + " " + e.top(st) + ")"
 	case *types.Slice:
-		return "(and (>= (s_base " + x + ") 0) (<= (s_base " + x + ") " + e.top(st) + ") (>= (s_off " + x + ") 0) (>= (s_len " + x + ") 0) (<= (s_len " + x + ") (s_cap " + x + ")) (=> (= (s_base " + x + ") 0) (= (s_cap " + x + ") 0)))"
+		return "(and (<= (s_base " + x + ") " + e.top(st) + ") (>= (s_off " + x + ") 0) (>= (s_len " + x + ") 0) (<= (s_len " + x + ") (s_cap " + x + ")) (=> (= (s_base " + x + ") 0) (= (s_cap " + x + ") 0)))"
 	}
 	return "true"
 }
@@ -318,6 +325,7 @@ func (e *Exec) VerifyFunction(fn *ssa.Function, ctr *Contract) (err error) {
 	e.entry = &State{H: map[string]string{}}
 	e.emitSpecPrelude()
 	st := e.entry.clone()
+	e.Out.Assert("(>= " + e.top(st) + " 0)")
 	// parameters
 	var args []Val
 	for _, p := range fn.Params {
